@@ -104,7 +104,7 @@ def prog_gen(stmts, maxlen, sample, seed, frac=1.0, only=None):
                 # required callee parameters only where the caller can always supply them: no taints, every call forwards both stars
                 sh = shape if (taintfree and full) else shape % 2
                 ws = [autofwd.callee_shapes(nm)[sh] for nm in autofwd.CALLEE_NAMES]
-                choice = autofwd.choose(prog, crnd, 2, same)
+                choice = autofwd.choose(prog, crnd, 2, same, relay=crnd.random() < 0.25)
                 yield autofwd.program_event('af/%d' % k, prog, autofwd.OUTERS[oi], ws, choice)
             k += 1
     return gen
